@@ -134,6 +134,11 @@ OSMT_MPZ_BIN(__gmpz_sub, "mpz_sub", OSMT_OP_SUB)
 /* the thread-local scratch integer FastRational::temp (an mpz_class; constructed => initialised, holds 0) */
 x___gmp_expr_mpz_t_mpz_t g_FastRational__temp_obj;
 __mpz_struct *__gmp_expr_mpz_t_mpz_t__get_mpz_t(void *self, ...) { __mpz_struct *z = &((x___gmp_expr_mpz_t_mpz_t *)self)->z; __CPROVER_assume(z->g_init); return z; }
+/* mpq_get_d: the double nearest (towards zero) to the value; exact only up to 2^53 -- CBMC's IEEE-754 semantics do the rounding */
+t_double nondet_double(void);
+t_double __gmpq_get_d(mpq_srcptr a) { __CPROVER_assert(MPQ_SET(a), "gmp-pre: mpq_get_d operand holds a value");
+  if (a->_mp_num.g_fl && a->_mp_den.g_fl && a->_mp_den.g_val == 1) return (t_double)a->_mp_num.g_val;
+  return nondet_double(); }
 /* the pool: alloc returns an initialised mpq whose old contents are meaningless */
 mpq_ptr FastRational__mpqPool__alloc(void *self) {
   mpq_ptr p = malloc(sizeof(__mpq_struct));
